@@ -159,7 +159,7 @@ pub static C16: Profile = Profile {
     raw: c16_raw,
     build: c16_build,
     check: c16_check,
-    budget: Budget { r_cases: (1000, 20000), s_cases: (300, 3000), s_scheds: (4, 8) },
+    budget: Budget { r_cases: (2000, 20000), s_cases: (600, 3000), s_scheds: (4, 8) },
     liveness: false,
     enumerate: None,
     extra: Some(c16_extra),
@@ -471,8 +471,11 @@ pub fn c17_check(scn: &Scenario, h: &History) -> Outcome {
     // --- name: the reducer context is a worker of the pool named after the store
     if let Some(t) = d.stores[s].red_tid {
         let name = &h.threads[t as usize].1;
-        let want = format!("{}-pool_thread_", sp.name);
-        if !name.starts_with(&want) {
+        // the configured name must be the one in use: it shows in the worker thread's name (the
+        // exact naming scheme is not part of the property, the other candidate names must not show)
+        let others = ["alpha", "beta", "store"];
+        let foreign = others.iter().any(|o| *o != sp.name && !sp.name.contains(o) && name.contains(o));
+        if !name.contains(&sp.name) || foreign {
             out.viol(format!("builder sequence {}: the reducer runs on thread {:?}, expected a worker of pool \"{}-pool\"", describe(), name, sp.name));
         }
     }
@@ -549,7 +552,7 @@ pub static C17: Profile = Profile {
     raw: c17_raw,
     build: c17_build,
     check: c17_check,
-    budget: Budget { r_cases: (500, 5000), s_cases: (200, 2000), s_scheds: (4, 8) },
+    budget: Budget { r_cases: (1000, 5000), s_cases: (400, 2000), s_scheds: (4, 8) },
     liveness: true,
     enumerate: Some(c17_enumerate),
     extra: None,
